@@ -51,6 +51,26 @@ def rsp_bytes(Rsp, tsn, seq, **kw):
     return streams.raw_frame(0xC0 | (seq << 2), body)
 
 
+_IND = []
+
+
+def indication_bytes(r, seq):
+    """the wire bytes of a random indication (every indication class the library defines) with generated parameters"""
+    import gen
+    import zigpy_zboss.types as t
+    if not _IND:
+        _IND.extend(c for c in gen.all_command_classes() if (int(c.header) >> 8) & 0xFF == 2)
+    for _ in range(5):
+        cls = r.choice(_IND)
+        try:
+            body = gen.gen_cmd(cls, r).to_frame().hl_packet.serialize()[2:]
+        except Exception:
+            continue
+        if len(body) <= 247:
+            return streams.raw_frame(0xC0 | (seq << 2), body)
+    return None
+
+
 class HostWorld:
     def __init__(self):
         from zigpy_zboss import uart
